@@ -40,10 +40,12 @@ def bytesBits : List (BitVec 8) → Bits
 
 /-- bits to whole bytes (`len` must be a multiple of 8 for an exact inverse) -/
 def bitsBytes (bs : Bits) : List (BitVec 8) :=
-  if h : bs.length = 0 then []
+  if h : bs.isEmpty then []      -- O(1); `bs.length = 0` made the compiled driver quadratic
   else BitVec.ofNat 8 (bitsToNat (bs.take 8)) :: bitsBytes (bs.drop 8)
 termination_by bs.length
-decreasing_by simp only [List.length_drop]; omega
+decreasing_by
+  have : bs.length ≠ 0 := fun e => h (by simp [List.length_eq_zero_iff.1 e])
+  simp only [List.length_drop]; omega
 
 /-! ### reading -/
 
